@@ -51,7 +51,7 @@ func run(c *hl.Ctx) error {
 	// (1) the sequence diagram is the whole board: no dagre/ELK run is involved (the engine only names the core
 	// layout that is never called), so these are cheap and run without a time budget
 	var rootJobs []lay.Job
-	for i, n := 0, lay.DevN(c.Pick(700, 40000)); i < n; i++ {
+	for i, n := 0, lay.DevN(c.Pick(1500, 40000)); i < n; i++ {
 		var src, tag string
 		if i%4 == 0 {
 			src, tag = tieHeavy(r), "tie-heavy:board"
@@ -64,7 +64,7 @@ func run(c *hl.Ctx) error {
 	// (2) sequence diagrams nested in containers / grid cells / nears, and special diagrams nested in actors: these
 	// go through LayoutNested with real core layouts, under the wall-time budget
 	var jobs []lay.Job
-	nProg := lay.DevN(c.Pick(300, 6000))
+	nProg := lay.DevN(c.Pick(450, 6000))
 	for i := 0; i < nProg; i++ {
 		var src, tag string
 		if i%3 == 1 {
